@@ -79,10 +79,6 @@ impl Zeroconf {
         ensures queue_ok(*old(self)) ==> queue_ok(*final(self)), cover_kept(*old(self), *final(self)), final(self).ip_check_interval == old(self).ip_check_interval,
     { unimplemented!() }
     #[verifier::external_body]
-    pub fn refresh_active_services(&mut self)
-        ensures queue_ok(*old(self)) ==> queue_ok(*final(self)), cover_kept(*old(self), *final(self)), final(self).ip_check_interval == old(self).ip_check_interval, final(self).hostname_resolvers == old(self).hostname_resolvers,
-    { unimplemented!() }
-    #[verifier::external_body]
     pub fn notify_service_removal(&self, expired: HashMap<String, HashSet<String>>) { unimplemented!() }
     #[verifier::external_body]
     pub fn resolve_updated_instances(&mut self, updated_instances: &HashSet<String>)
